@@ -771,7 +771,8 @@ def coq_state(sn, I):
         insts.append(f"({I('u', it['uid'])}, mkI {FST[it['status']]} {C.coq_list(heads)})")
     index = []
     for n, lst in sn["index"]:
-        index.append(f"({I('n', n)}, {C.coq_list([f'({I(chr(117), e[0])}, {I(chr(117), e[1])})' for e in lst])})")
+        entries = ["(%d, %d)" % (I("u", e[0]), I("u", e[1])) for e in lst]
+        index.append(f"({I('n', n)}, {C.coq_list(entries)})")
     rev = []
     for k, n in sn["rev"]:
         f, h = split_rev_key(k, sn["insts"])
@@ -1216,7 +1217,7 @@ class Explorer:
         self.nodes = 0
 
     # ---- one traced call ---------------------------------------------------------------
-    def traced(self, state, fn, label, hist, first=False):
+    def traced(self, state, fn, label, hist):
         """Runs fn() (a run_to_completion, or initialize+start) traced; returns (ok, state')."""
         TR.state = state
         TR.enabled = True
@@ -1358,7 +1359,7 @@ class Explorer:
             return sm.run_to_completion(state, sm.InternalEvent(name="StartFlow", arguments={"flow_id": "main"}, matching_scores=[]))
 
         try:
-            status, st, _ = self.traced(state, boot, {}, [], first=True)
+            status, st, _ = self.traced(state, boot, {}, [])
         except Exception as e:  # noqa: BLE001 - initialize_state raising ColangSyntaxError etc.
             self.sink["load"] = "init-error: " + repr(e)[:200]
             return
